@@ -292,7 +292,7 @@ fn exec_plans(thorough: bool, wi: usize, plans: Vec<Plan>, dl: &Deadline, stop: 
         let file = dir.join(format!("c09-plans-{wi}-{id}-{}.txt", std::process::id()));
         let text: String = chunk.iter().map(|p| plan_to_string(p) + "\n").collect();
         std::fs::write(&file, text).unwrap();
-        let out = std::process::Command::new(&exe)
+        let out = crate::util::child_command(&exe)
             .args(["c09-worker", if thorough { "1" } else { "0" }, &wi.to_string(), file.to_str().unwrap()])
             .stderr(std::process::Stdio::null())
             .output();
